@@ -6,6 +6,9 @@ def lookup(prop):
     if prop == "C18":
         from harness import check_c18b
         checks_core.EXTRAS["C18"] = check_c18b.run_signum
+    if prop == "C01":
+        from harness import check_c15reload
+        checks_core.EXTRAS["C01"] = check_c15reload.run_reload_c01
     if prop == "C15":
         from harness import check_c15reload
         checks_core.EXTRAS["C15"] = check_c15reload.run_reload_dir
